@@ -619,16 +619,16 @@ theorem detectOn_decision (E : Ext) (h : Handle) (tm tj ty tt : Trial)
   | noMatch =>
     simp only [decided, hj rfl]
     cases tj with
-    | matched => simp [decided, detectFormat, decideList]
-    | ioErr => simp [decided, detectFormat, decideList]
+    | matched => simp [detectFormat, decideList]
+    | ioErr => simp [detectFormat, decideList]
     | noMatch =>
-      simp only [decided, hy rfl rfl]
+      simp only [hy rfl rfl]
       cases ty with
-      | matched => simp [decided, detectFormat, decideList]
-      | ioErr => simp [decided, detectFormat, decideList]
+      | matched => simp [detectFormat, decideList]
+      | ioErr => simp [detectFormat, decideList]
       | noMatch =>
-        simp only [decided, ht rfl rfl rfl]
-        cases tt <;> simp [decided, detectFormat, decideList]
+        simp only [ht rfl rfl rfl]
+        cases tt <;> simp [detectFormat, decideList]
 
 /-- Detection selects MessagePack exactly when the first trial matches; the
 handle is then as that trial left it. -/
@@ -649,24 +649,22 @@ theorem detectOn_msgpack (E : Ext) (h : Handle) :
       exfalso
       revert hd
       cases (jsonTrial (mpTrial h).2).1 with
-      | panic s => simp [decided]
+      | panic s => simp
       | answer tj =>
         cases tj with
-        | matched => simp [decided]
-        | ioErr => simp [decided]
+        | matched => simp
+        | ioErr => simp
         | noMatch =>
-          simp only [decided]
           cases (yamlTrial E (jsonTrial (mpTrial h).2).2).1 with
-          | panic s => simp [decided]
+          | panic s => simp
           | answer ty =>
             cases ty with
-            | matched => simp [decided]
-            | ioErr => simp [decided]
+            | matched => simp
+            | ioErr => simp
             | noMatch =>
-              simp only [decided]
               cases (tomlTrialStep E (yamlTrial E (jsonTrial (mpTrial h).2).2).2).1 with
-              | panic s => simp [decided]
-              | answer tt => cases tt <;> simp [decided]
+              | panic s => simp
+              | answer tt => cases tt <;> simp
 
 /-- Detection selects JSON exactly when the MessagePack trial declines and the
 JSON trial, on the handle as the MessagePack trial left it, matches; the handle
@@ -687,27 +685,25 @@ theorem detectOn_json (E : Ext) (h : Handle) :
     | noMatch =>
       simp only [decided]
       cases hj : (jsonTrial (mpTrial h).2).1 with
-      | panic s => simp [decided]
+      | panic s => simp
       | answer tj =>
         cases tj with
-        | matched => simp [decided]
-        | ioErr => simp [decided]
+        | matched => simp
+        | ioErr => simp
         | noMatch =>
-          simp only [decided]
           refine ⟨⟨fun hd => ?_, fun hd => by simp at hd⟩, fun _ hd => by simp at hd⟩
           exfalso
           revert hd
           cases (yamlTrial E (jsonTrial (mpTrial h).2).2).1 with
-          | panic s => simp [decided]
+          | panic s => simp
           | answer ty =>
             cases ty with
-            | matched => simp [decided]
-            | ioErr => simp [decided]
+            | matched => simp
+            | ioErr => simp
             | noMatch =>
-              simp only [decided]
               cases (tomlTrialStep E (yamlTrial E (jsonTrial (mpTrial h).2).2).2).1 with
-              | panic s => simp [decided]
-              | answer tt => cases tt <;> simp [decided]
+              | panic s => simp
+              | answer tt => cases tt <;> simp
 
 /-! ## `prefix(n)` on a source without a fault, exactly -/
 
